@@ -34,7 +34,7 @@ def param_obj(tag: str, **f) -> Obj:
 def check(ctx: Ctx, col: Collector, tier: str) -> None:
     repo = ctx.repo
     col.spec("C06.ARGKIND-TABLE", "the API JSON records the correct passing kind for each parameter",
-             "specialisation of get_argument_kind over ArgKind x pos_only x is_self x is_cls", floor=36)
+             "specialisation of get_argument_kind over ArgKind x pos_only x is_self x is_cls (feasible combinations)", floor=24)
     col.spec("C06.ONE-PER-PARAM", "same length, same order, same Python names (analysis side)",
              "per-iteration path analysis of the argument loop in _parse_parameter_data", floor=4)
     col.spec("C06.EMIT-ONE-PER-PARAM", "same length, same order (generator side): one appended entry per non-receiver parameter",
@@ -57,6 +57,8 @@ def check(ctx: Ctx, col: Collector, tier: str) -> None:
     pname = fi.params()[0]
     for kind in argkinds:
         for po in (True, False):
+            if po and kind not in ("ARG_POS", "ARG_OPT"):
+                continue  # mypy sets pos_only only for positional arguments written before '/'
             for is_self, is_cls in ((False, False), (True, False), (False, True)):
                 arg = Obj("Argument", (("kind", EnumM("ArgKind", kind)), ("pos_only", Const(po)),
                                        ("variable", Obj("Var", (("is_self", Const(is_self)), ("is_cls", Const(is_cls)))))))
@@ -385,19 +387,29 @@ def check(ctx: Ctx, col: Collector, tier: str) -> None:
         detail = ""
         if want == "unary":
             # recursion on the operand; results: signed number (int/float of f"{op}{value}") or UnknownValue
-            for v in vals:
+            for o in outs:
+                if o.kind != "return":
+                    continue
+                v = o.value
                 if not (isinstance(v, ListV) and len(v.items) == 2):
                     ok = False
                     continue
                 first = v.items[0]
                 if isinstance(first, Obj) and first.cls == "UnknownValue":
                     continue
-                if isinstance(first, App) and first.func in ("int", "float"):
-                    txt = render(first.args[0]) if first.args else ""
-                    if "<op>" in txt and txt.index("<op>") < txt.rindex("{"):
-                        continue
+                conv = None
+                for fk, fv in o.facts:
+                    if fv and fk.startswith("isinstance(") and fk.endswith(",int)"):
+                        conv = "int"
+                    if fv and fk.startswith("isinstance(") and fk.endswith(",float)"):
+                        conv = "float"
+                # the signed number is int/float (matching the operand's own class) of exactly f"{op}{value}"
+                if isinstance(first, App) and first.func == conv and len(first.args) == 1 and isinstance(first.args[0], StrT) \
+                        and len(first.args[0].parts) == 2 and first.args[0].parts[0] == Sym("op") \
+                        and not isinstance(first.args[0].parts[1], str):
+                    continue
                 ok = False
-                detail = f"unexpected unary result {first!r}"
+                detail = f"signed {conv} default is computed as {first!r}, not {conv}(f'{{op}}{{value}}')"
             rec = [e for o in outs for e in o.effects if e.kind == "call" and e.target.endswith("_get_parameter_type_and_default_value")]
             if not rec or not all(e.args and e.args[0] == Sym("operand") for e in rec):
                 ok = False
